@@ -1,6 +1,7 @@
 """C40 - bundles and merge directives reproduce the revisions they carry."""
 
 import io
+import os
 
 from hypothesis import strategies as st
 
@@ -670,8 +671,107 @@ def case_strategy(draw, tier):
             "md": md}
 
 
+# ------------------------------------------------ kind change of a file id
+
+KINDCHANGE = "C40/v09-bundle-kind-change-of-a-file-id"
+_KINDS = ["file", "symlink", "directory"]
+
+
+def _make(root, path, kind, tag):
+    ap = os.path.join(root, path)
+    if kind == "file":
+        with open(ap, "wb") as f:
+            f.write(("text %s\n" % tag).encode())
+    elif kind == "symlink":
+        os.symlink("target-" + tag, ap)
+    else:
+        os.mkdir(ap)
+
+
+def _unmake(root, path):
+    ap = os.path.join(root, path)
+    if os.path.isdir(ap) and not os.path.islink(ap):
+        os.rmdir(ap)
+    else:
+        os.unlink(ap)
+
+
+def run_kindchange(case, env):
+    """An entry keeps its file id and changes kind between two revisions
+    (what `rm f; ln -s x f; brz commit` records); optionally it is renamed in
+    the same revision and another file is edited.  Every bundle format must
+    install the revision with the source's testament."""
+    from breezy.bzr.bundle import serializer as bser
+    d = env.newdir()
+    fmt = case["format"]
+    wt = bz.init_tree(d + "/src", fmt)
+    root = d + "/src"
+    _make(root, "e", case["from"], "one")
+    _make(root, "other", "file", "one")
+    wt.add(["e", "other"], ids=[b"e-id", b"other-id"])
+    wt.commit("one", rev_id=b"r1", timestamp=bz.T0, timezone=0,
+              committer=bz.COMMITTER)
+    _unmake(root, "e")
+    name = "e"
+    if case["rename"]:
+        name = "e2"
+    _make(root, name, case["to"], "two")
+    if case["rename"]:
+        wt.rename_one("e", "e2", after=True)
+    if case["edit_other"]:
+        _make(root, "other", "file", "two")
+    wt.commit("two", rev_id=b"r2", timestamp=bz.T0 + 60, timezone=0,
+              committer=bz.COMMITTER)
+    repo = wt.branch.repository
+    with repo.lock_read():
+        check(repo.revision_tree(b"r2").kind(name) == case["to"] and
+              repo.revision_tree(b"r2").path2id(name) == b"e-id",
+              "C40/harness-kind-change-not-recorded", [case])
+    noted = []
+    formats = ["4", "0.9"] + (["0.8"] if fmt == "pack-0.92" else [])
+    for f in formats:
+        recv = bz.init_repo("%s/recv-%s" % (d, f.replace(".", "")), fmt)
+        recv.fetch(repo, b"r1")
+        out = io.BytesIO()
+        try:
+            with repo.lock_read():
+                bser.write_bundle(repo, b"r2", b"r1", out, format=f)
+            info = bser.read_bundle(io.BytesIO(out.getvalue()))
+            with recv.lock_write():
+                info.install_revisions(recv)
+            with recv.lock_read(), repo.lock_read():
+                check(recv.has_revision(b"r2"),
+                      "C40/bundle-v%s-revision-missing-after-install" % f,
+                      [case])
+                a, b = _testament(repo, b"r2"), _testament(recv, b"r2")
+                check(a == b, "C40/bundle-v%s-testament-differs" % f, [case])
+        except Exception as e:  # noqa: BLE001 - classified, else re-raised
+            if f == "4" or KINDCHANGE not in _known():
+                raise
+            noted.append((KINDCHANGE, [f, case, type(e).__name__,
+                                       str(e)[:160]]))
+    label = "%s/kind-change:%s->%s" % (fmt, case["from"], case["to"])
+    if noted:
+        return violation(noted[0][0], noted[0][1], label=label)
+    return ok(label)
+
+
+def enum_kindchange(tier):
+    for fmt in ("2a", "pack-0.92"):
+        for a in _KINDS:
+            for b in _KINDS:
+                if a == b:
+                    continue
+                for rename in (False, True):
+                    for edit in (False, True):
+                        yield {"format": fmt, "from": a, "to": b,
+                               "rename": rename, "edit_other": edit}
+
+
 def kinds(tier):
     return [
+        Kind("kind-change", run_kindchange, enumerate=enum_kindchange,
+             exhaustive=True),
         Kind("bundles", run, strategy=case_strategy(tier),
              examples={"quick": 200, "thorough": 5000}),
     ]
